@@ -163,6 +163,9 @@ func c19RateProperty(t *rapid.T, st *Stats) {
 	limit := rapid.IntRange(1, 5).Draw(t, "rateLimit")
 	conf := baseConf(config.StoreMem, "")
 	conf.API.RateLimit = limit
+	// "warning headers to include with all responses": also with the responses the limiter produces
+	warnings := rapid.SampledFrom([][]string{nil, nil, {"maintenance at noon"}, {"one", "two"}}).Draw(t, "warnings")
+	conf.API.Warnings = warnings
 	srv := olareg.New(conf)
 	defer srv.Close()
 	type win struct {
@@ -172,7 +175,7 @@ func c19RateProperty(t *rapid.T, st *Stats) {
 	}
 	wins := map[string]*win{}
 	addrs := []string{"10.0.0.1", "10.0.0.2", "10.0.0.12", "192.168.1.9", "::1", "::2", "2001:db8::a", "2001:db8::b", "::ffff:10.0.0.1"}
-	trace := []string{fmt.Sprintf("RateLimit=%d", limit)}
+	trace := []string{fmt.Sprintf("RateLimit=%d warnings=%q", limit, warnings)}
 	fail := func(key, f string, a ...any) { Fail(t, st, key, fmt.Sprintf(f, a...), trace, nil) }
 	used := map[string]bool{}
 	exceeded := false
@@ -218,6 +221,15 @@ func c19RateProperty(t *rapid.T, st *Stats) {
 		used[key] = true
 		if r.panicV != nil {
 			fail("panic", "panic: %v", r.panicV)
+		}
+		if got := r.hdr.Values("Warning"); len(got) != len(warnings) {
+			fail("warning-headers", "response %d to %s carries Warning headers %q, configured: %q", r.code, ip, got, warnings)
+		} else {
+			for wi, w := range warnings {
+				if got[wi] != fmt.Sprintf("299 - %q", w) {
+					fail("warning-headers", "response %d carries Warning %q, configured %q", r.code, got[wi], w)
+				}
+			}
 		}
 		wantRefused := w.count > limit
 		if wantRefused {
